@@ -215,11 +215,12 @@ fn do_call(c: &J, idx: usize) {
                     let assoc = if c["assoc"] == "R" { InfixOpAssociativity::RIGHT } else { InfixOpAssociativity::LEFT };
                     // a user handler for a built-in arithmetic operator computes something visibly different (F1)
                     let arith = c["arith"].as_str().map(|s| s.to_string());
+                    let ret = c.get("ret").and_then(json_to_value);
                     expression_engine::register_infix_op(name, prec, InfixOpType::CALC, assoc, Arc::new(move |a, b| {
                         handler_entry(&i2);
                         match arith.as_deref() {
                             Some("sub") => Ok(Value::Number(a.decimal()? - b.decimal()?)),
-                            _ => Ok(Value::String(i2.clone())),
+                            _ => Ok(ret.clone().unwrap_or(Value::String(i2.clone()))),
                         }
                     }))
                 }
